@@ -1372,7 +1372,10 @@ pub fn run_case(case: Case) -> (String, Vec<Aux>) {
             certs: None,
         };
     });
+    #[cfg(feature = "hooks")]
     msql_srv::verif::set_packet_limit(case.lim);
+    #[cfg(not(feature = "hooks"))]
+    assert_eq!(case.lim, 16_777_215, "production build of msql-srv: the packet limit is fixed");
     if case.tls {
         // build the shared config outside of the measured/caught region
         let _ = tls_config();
